@@ -138,10 +138,21 @@ Definition tprobe (c : conn) : list tree :=
     TL (map (fun kq => TL [TN (fst kq); TL (map (topt TN) (snd kq))]) (c_remote c)) ].
 
 (* observation of one step: 0 outcome, 1 pending output, 2 encoder log growth, 3.. state probes *)
+Definition strip_headers (f : frame) : frame :=
+  match f with
+  | FHeaders sid es eh p _ ch => FHeaders sid es eh p [] ch
+  | FPushPromise sid pr eh _ ch => FPushPromise sid pr eh [] ch
+  | _ => f
+  end.
+Definition header_lists (fs : list frame) : list (list hitem) :=
+  flat_map (fun f => match f with FHeaders _ _ _ _ hs _ | FPushPromise _ _ _ hs _ => [hs] | _ => [] end) fs.
+
+(* 0 outcome, 1 pending output (structure), 2 encoder log growth, 3..12 probes,
+   13 header lists of the pending output's header blocks (as an independent HPACK decoder reads them) *)
 Definition obs_parts (c c' : conn) (r : res answer) : list tree :=
-  [tres r; TL (map (fun f => tframe (wire_frame f)) (c_out c'));
+  [tres r; TL (map (fun f => tframe (wire_frame (strip_headers f))) (c_out c'));
    TL (map thitems (firstn (length (c_enc_log c') - length (c_enc_log c)) (c_enc_log c')))]
-  ++ tprobe c'.
+  ++ tprobe c' ++ [TL (map thitems (header_lists (c_out c')))].
 
 Definition step_obs (c : conn) (o : op) : conn * list Z :=
   let '(c', r) := step c o in (c', map thash (obs_parts c c' r)).
